@@ -180,6 +180,9 @@ def cases(tier, seed):
             f'one2one12_listed_{pname}')
         add(net(n_s=12, n_t=12, edges=edges_of([(S12[k], T12[pm[k]], 0.5 + 0.25 * k) for k in range(12)])),
             f'one2one12_mapped_{pname}')
+    # merged nodes with delayed terms and per-node delays (vectorized vs non-vectorized runs; C10's runner)
+    from . import C10
+    out += [dict(c_, delegate='C10', tag='delayed_terms') for c_ in C10.cases(tier, seed) if c_.get('kind') == 'vec' and c_['n'] > 1]
     if tier != 'quick':
         lt4 = ['p0', 'p1', 'p2', 'p3']
         for pat in patterns(lt4, lt4, 3):
@@ -204,6 +207,11 @@ def describe(tier, seed):
 def run_case(case):
     from .. import build, pool
     from ..refsem import solvers
+    if case.get('delegate') == 'C10':
+        from . import C10
+        r = C10.run_case(case)
+        r['nontrivial'] = True
+        return r
     spec = case['spec']
     res = {'evals': 0}
     nodes, edges = sp.flatten(spec)
